@@ -473,10 +473,18 @@ func (r *cwRig) do(a Step) []string {
 		if a.C >= len(r.cancels) {
 			return nil
 		}
+		// D: how far the virtual clock advances (default: just past the Write's 30 s bound); B != 0: the back-pressure
+		// on the client's Writes stays (the scenario performs no client Write afterwards).
 		r.link.C.BlockWrites()
 		r.cancels[a.C]()
-		time.Sleep(30*time.Second + time.Millisecond)
-		r.link.C.UnblockWrites()
+		if a.D > 0 {
+			time.Sleep(time.Duration(a.D) * time.Millisecond)
+		} else {
+			time.Sleep(30*time.Second + time.Millisecond)
+		}
+		if a.B == 0 {
+			r.link.C.UnblockWrites()
+		}
 		// (the generators follow this step with "wfail 0": the model's transport accepts Writes again)
 		return []string{"ASetWriteFail true", fmt.Sprintf("ACancel %d", a.C)}
 	case "holdloop":
@@ -1076,6 +1084,8 @@ func runCwScenario(t *testing.T, idx int, kind string, sc cwScenario, em *Emitte
 			delete(rig.ugates, k)
 		}
 		rig.mu.Unlock()
+		link.C.UnblockWrites()
+		link.S.UnblockWrites()
 		link.C.FailRead(errInjected)
 		link.S.FailRead(errInjected)
 		if srvCancel != nil {
